@@ -226,7 +226,7 @@ func runC15(out *Out, r *Rand, tier string, replay []string) {
 		}
 		per := 6
 		if tier == "thorough" {
-			per = 120
+			per = 40
 		}
 		for _, f := range tab.Fields {
 			hasGet := f.Kind != "void"
